@@ -47,19 +47,21 @@ type bObs struct {
 	SigOK        bool   `json:"sig_ok"`
 	VerifiedBy   string `json:"verified_by"`
 	// post
-	Forms          int    `json:"forms"`
-	ActionOK       bool   `json:"action_ok"`
-	FieldCount     int    `json:"field_count"`
-	FieldOK        bool   `json:"field_ok"`
-	ScriptSubmits  bool   `json:"script_submits"`
-	SkeletonOK     bool   `json:"skeleton_ok"`
-	Note           string `json:"note"`
+	Forms         int    `json:"forms"`
+	ActionOK      bool   `json:"action_ok"`
+	FieldCount    int    `json:"field_count"`
+	FieldOK       bool   `json:"field_ok"`
+	ScriptSubmits bool   `json:"script_submits"`
+	SkeletonOK    bool   `json:"skeleton_ok"`
+	Note          string `json:"note"`
 }
 
-func (Bindings) Name() string                    { return "Bindings" }
-func (Bindings) MC(tier string) (string, string) { return "MC_Bindings.tla", "MC_Bindings_" + tier + ".cfg" }
-func (Bindings) Trace() (string, string)         { return "Trace_Bindings.tla", "Trace_Bindings.cfg" }
-func (Bindings) Cap(tier string) int             { return 0 }
+func (Bindings) Name() string { return "Bindings" }
+func (Bindings) MC(tier string) (string, string) {
+	return "MC_Bindings.tla", "MC_Bindings_" + tier + ".cfg"
+}
+func (Bindings) Trace() (string, string) { return "Trace_Bindings.tla", "Trace_Bindings.cfg" }
+func (Bindings) Cap(tier string) int     { return 0 }
 func (Bindings) Layouts(tier string) int {
 	if tier == "thorough" {
 		return 3
